@@ -57,6 +57,11 @@ pub fn build(case: &Case, ctx: &mut CaseCtx) -> Built {
     let msg = InitMsg { default_timeout: 1000, gov_contract: gov.to_string(), allowlist, default_gas_limit: if case.variant % 2 == 0 { None } else { Some(500_000) } };
     must(d.tx(|deps, env| cw20_ics20::contract::instantiate(deps, env, info, msg)).map(|_| ()), "ics20 instantiate");
     for &s in second {
+        if s % 6 == 1 {
+            // the upper-case spelling of the address is not an address: refused, nothing is listed for it
+            let r = exec(&mut d, &gov, ExecuteMsg::Allow(AllowMsg { contract: cands[s].to_string().to_uppercase(), gas_limit: gas(s) }));
+            ctx.count(if r.is_ok() { "ics20_allow_upper_case_accepted" } else { "ics20_allow_upper_case_refused" });
+        }
         must(exec(&mut d, &gov, ExecuteMsg::Allow(AllowMsg { contract: cands[s].to_string(), gas_limit: gas(s) })), "allow");
         if s % 7 == 0 {
             d.advance(1, 5);
